@@ -36,8 +36,9 @@ ANCHORS = ['openpgp:SystemGPGEnvironment.verify_file',
 REQUIRED = ['openpgp:SystemGPGEnvironment.verify_file', 'fake:accepted',
             'fake:rejected', 'keys:accepted', 'keys:rejected', 'mut:rejected',
             'iso:runs', 'spawn_audit_events', 'cli:runs']
-ASSUMPTIONS = ['GnuPG 2.2 status vocabulary; key refresh needs the network and is '
-               'disabled (-R) in all CLI runs; the PGPy backend is not installed',
+ASSUMPTIONS = ['GnuPG 2.2 status vocabulary; key refresh is exercised only against a '
+               'key server on localhost (keyserver mode, no WKD), CLI runs use -R; the '
+               'PGPy backend is not installed',
                'reports describing several signatures: only the necessity of the '
                'acceptance predicate is enforced (U7)']
 
@@ -100,10 +101,12 @@ def units(tier, seed):
         u.append({'k': 'keys', 'state': st})
     for i in range(2 if tier == 'quick' else 24):
         u.append({'k': 'mut', 'i': i})
-    for i in range(9):
+    for i in range(12):
         u.append({'k': 'iso', 'i': i})
     for i in range(2 if tier == 'quick' else 12):
         u.append({'k': 'cli', 'i': i})
+    for i in range(4 if tier == 'quick' else 24):
+        u.append({'k': 'refresh', 'i': i})
     return u
 
 
@@ -477,11 +480,14 @@ def cli(argv):
         return gcli.main(['gemato'] + argv)
     except SystemExit as exc:
         return 'exit:%s' % exc.code
+    except OSError as exc:
+        return exc
 
 
 USER_HOMES = ['empty', 'signer-ultimate', 'other-keys']
 KEYFILES = {'signer': keys.VALID_PUBLIC_KEY, 'other': keys.OTHER_VALID_PUBLIC_KEY,
-            'both': keys.OTHER_VALID_PUBLIC_KEY + keys.VALID_PUBLIC_KEY}
+            'both': keys.OTHER_VALID_PUBLIC_KEY + keys.VALID_PUBLIC_KEY,
+            'empty-name': None}     # -K '' : an explicitly given but empty file name
 
 
 def run_iso(u, ctx):
@@ -495,8 +501,11 @@ def run_iso(u, ctx):
         with open(os.path.join(tree, 'f'), 'w'):
             pass
         kpath = os.path.join(d, 'key.bin')
-        with open(kpath, 'wb') as f:
-            f.write(KEYFILES[kf])
+        if KEYFILES[kf] is None:
+            kpath = ''
+        else:
+            with open(kpath, 'wb') as f:
+                f.write(KEYFILES[kf])
         user = gpgenv.Home(direct_trust=True, base=d)
         try:
             if uh == 'signer-ultimate':
@@ -519,6 +528,9 @@ def run_iso(u, ctx):
             ctx.case(sig=('iso', uh, kf), case=case, klass='iso')
             ctx.count('iso:runs')
             expect_ok = kf in ('signer', 'both')
+            if isinstance(rc, Exception):
+                # (a key file that cannot be opened is a genuine OS error)
+                rc = 'raised:' + type(rc).__name__
             if (rc == 0) != expect_ok:
                 ctx.violation('isolation:%s:%s' % ('accepted' if rc == 0 else
                                                    'rejected', kf),
@@ -616,9 +628,95 @@ def run_cli(u, ctx):
                     'other}'}, 'cli')
 
 
+class _HKP:
+    """Minimal local HKP key server (localhost only)."""
+
+    def __init__(self, keymap):
+        import functools
+        import http.server
+        import threading
+        from urllib.parse import parse_qs, urlparse
+        keys_ = keymap
+
+        class H(http.server.BaseHTTPRequestHandler):
+            def log_message(self, *a, **k):
+                pass
+
+            def do_GET(self):
+                q = parse_qs(urlparse(self.path).query)
+                key = (q.get('search') or [''])[0]
+                key = key[2:] if key.startswith('0x') else key
+                blob = keys_.get(key) or keys_.get(key.upper())
+                if blob is None:
+                    for k2, v in keys_.items():
+                        if k2.endswith(key.upper()):
+                            blob = v
+                if blob is None:
+                    self.send_error(404)
+                    return
+                self.send_response(200)
+                self.send_header('Content-type', 'application/pgp-keys')
+                self.end_headers()
+                self.wfile.write(blob)
+        self.server = http.server.HTTPServer(('127.0.0.1', 0), H)
+        self.addr = 'hkp://127.0.0.1:%d' % self.server.server_address[1]
+        self.thread = threading.Thread(target=self.server.serve_forever, daemon=True)
+        self.thread.start()
+
+    def stop(self):
+        self.server.shutdown()
+        self.server.server_close()
+        self.thread.join(5)
+
+
+def run_refresh(u, ctx):
+    """History on ONE environment object: import, verify (good), refresh brings a
+    revocation / expiry from a local key server, verify again."""
+    from gemato.exceptions import GematoException
+    from gemato.openpgp import IsolatedGPGEnvironment
+    rng = common.rng_for(ctx.seed, ID, 'refresh', u['i'])
+    new_state = ['revoked', 'expired'][u['i'] % 2]
+    blob = keys.REVOKED_PUBLIC_KEY if new_state == 'revoked' else keys.EXPIRED_PUBLIC_KEY
+    text = signer().clearsign(sample_manifest(rng))
+    text2 = signer().clearsign(sample_manifest(rng))
+    case = {'kind': 'refresh', 'new_state': new_state, 'text': text}
+    ctx.case(sig=('refresh', new_state), case=case, klass='refresh')
+    srv = _HKP({FPR: blob})
+    try:
+        with IsolatedGPGEnvironment() as env:
+            env.import_key(io.BytesIO(keys.VALID_PUBLIC_KEY))
+            kind, val, m = verify_with_env(env, text)
+            if kind != 'ok':
+                ctx.violation('real-rejects-original', 'valid signature rejected before '
+                              'the refresh: %r' % (val,), case)
+                return
+            try:
+                env.refresh_keys(allow_wkd=False, keyserver=srv.addr)
+            except GematoException as exc:
+                ctx.count('refresh_unavailable')
+                ctx.notes['refresh_unavailable:' + type(exc).__name__] += 1
+                return
+            ctx.count('refresh_runs')
+            for which, t in (('same-text', text), ('new-text', text2)):
+                kind, val, m = verify_with_env(env, t)
+                if kind == 'ok':
+                    ctx.violation('accepted-after-key-%s:%s' % (new_state, which),
+                                  'after refresh_keys() delivered a %s key the '
+                                  'signature (%s) is still accepted on the same '
+                                  'environment object' % (new_state, which), case)
+                    return
+                if not isinstance(val, GematoException):
+                    ctx.violation('verify-raises:' + adapt.exc_key(val),
+                                  'non-library exception %r' % (val,), case)
+                    return
+    finally:
+        srv.stop()
+    ctx.sample({'kind': 'refresh', 'new_state': new_state}, 'refresh')
+
+
 def run_unit(u, ctx):
     {'fake': run_fake, 'keys': run_keys, 'mut': run_mut, 'iso': run_iso,
-     'cli': run_cli}[u['k']](u, ctx)
+     'cli': run_cli, 'refresh': run_refresh}[u['k']](u, ctx)
 
 
 def replay(case, ctx):
@@ -646,3 +744,5 @@ def replay(case, ctx):
         run_iso({'i': i}, ctx)
     elif k == 'cli':
         run_cli({'i': 0}, ctx)
+    elif k == 'refresh':
+        run_refresh({'i': 0 if case['new_state'] == 'revoked' else 1}, ctx)
